@@ -23,10 +23,13 @@ PROPS_MODULE = 'SympdeModel.Props.C16'
 GEN = [T.generate]
 EXTRA_THEOREM_MODULES = T.MODULES          # filled by T.generate() before it is read
 TOL = 1e-10
-RULE = ('every class of sympde/topology/analytical_mapping.py x admissible dimension x parameter sets (integers, '
-        'rationals, floats; quick 1-2, thorough 5 per class) in ranges where the mapping is regular, and user subclasses '
-        'of Mapping defined the same way (random polynomial / trigonometric perturbations of the identity in 1D-3D); '
-        'evaluation points = random dyadic rationals (exact in floating point); argument shapes (), (n,), (n,1)/(1,m), '
+RULE = ('every class of sympde/topology/analytical_mapping.py x admissible dimension (dim=1..3, and for the classes without a '
+        'fixed dimension also ldim < pdim: curves (1,2), (1,3) and surfaces (2,3)) x parameter sets (integers, rationals, '
+        'python/numpy floats, sympy Float / Decimal / mpf objects, mixtures; quick 1-2, thorough 5 per class) in ranges where the '
+        'mapping is regular, and user subclasses of Mapping defined the same way (random polynomial / trigonometric '
+        'perturbations of the identity in 1D-3D, or of the embedding of a curve / surface: _ldim < _pdim); a fixed corpus; '
+        'evaluation points = random dyadic rationals (exact in floating point), special angles, and points where a leading '
+        'principal minor (pivot) of the Jacobian vanishes although the mapping is regular; argument shapes (), (n,), (n,1)/(1,m), '
         '(a,1,1)/(1,b,1)/(1,1,c), mixed scalar/array, incompatible ones; a correspondence case is one shape request or one '
         'sdiff request; non-trivial = array-valued or broadcasting request / expression with a product, power or function')
 ASSUMPTIONS = [
@@ -38,6 +41,8 @@ ASSUMPTIONS = [
     'generated theorems: jac_is_derivative_* assume FnTable S (sin\' = cos, cos\' = -sin, ...); inv_is_inverse_* assume '
     'NonDeg S M_Jinv (every denominator of the stored inverse is invertible); metric_is_gram_* and metric_det_is_det_* '
     'have no hypothesis; no trigonometric identity is used anywhere',
+    'the generated theorems cover the 15 dim=... instances of the catalogue; the ldim < pdim variants of AffineMapping / '
+    'IdentityMapping (curves, surfaces) and user subclasses are covered by the correspondence (sdiff) and the oracle only',
     'CzarnyMapping (square roots): jac_is_derivative / metric_is_gram additionally assume NonDeg of X, J, G, of the formal '
     'derivatives, and the square-root facts Czarny_2_Rad; metric_det_is_det_Czarny_2 and inv_is_inverse_Czarny_2 are '
     'stated in comments only (grind does not close them within minutes) and are covered by the oracle only',
@@ -55,30 +60,79 @@ def rat(rng, lo, hi, den=16):
     return Rational(rng.randint(a, b), den)
 
 
-def as_kind(v, kind):
-    """a rational value as int (when it is one) / Rational / float"""
-    from sympy import Integer, Float
-    if kind == 'float':
+KINDS = ['int', 'rat', 'float', 'sfloat', 'mixed']
+# the ways one parameter value can be handed to a mapping constructor
+HOWS = {'int': ['int'], 'rat': ['rat'], 'float': ['float', 'float', 'np.float64'],
+        # floating-point numbers that are not python floats (seeded change C16-8: the choice of the inversion
+        # formula looked at the python type of the parameters instead of the Float atoms of the Jacobian)
+        'sfloat': ['Float', 'sympify', 'evalf', 'Decimal', 'mpf']}
+HOWS['mixed'] = ['int', 'rat', 'rat', 'float'] + HOWS['sfloat']
+
+
+def make_param(v, how):
+    """the rational value v (exactly representable in binary floating point) as the python / sympy / numpy object `how`"""
+    import sympy
+    v = sympy.Rational(v)
+    if how == 'int':
+        return int(v) if v.q == 1 else v
+    if how == 'rat':
+        return v
+    if how == 'float':
         return float(v)
-    if kind == 'int' and v.q == 1:
-        return int(v)
-    return v
+    if how == 'np.float64':
+        import numpy
+        return numpy.float64(float(v))
+    if how == 'Float':
+        return sympy.Float(float(v))
+    if how == 'sympify':
+        return sympy.sympify(repr(float(v)))            # what a parameter read from a text file becomes
+    if how == 'evalf':
+        return v.evalf()
+    if how == 'Decimal':
+        import decimal
+        return decimal.Decimal(repr(float(v)))
+    if how == 'mpf':
+        import mpmath
+        return mpmath.mpf(float(v))
+    raise ValueError(how)
 
 
-def params_for(name, d, rng, kind):
-    """numeric parameters in a range where the mapping is regular on the sample box"""
+def as_kind(v, kind, rng=None, how=None):
+    """a rational value as an object of the parameter kind; `how` receives the constructor used"""
+    h = HOWS[kind][0] if rng is None else rng.choice(HOWS[kind])
+    if how is not None:
+        how.append(h)
+    return make_param(v, h)
+
+
+def ldpd(d):
+    """(ldim, pdim) of a dimension request: an int (dim=d) or a pair (ldim < pdim: a curve / a surface)"""
+    return (d, d) if isinstance(d, int) else (int(d[0]), int(d[1]))
+
+
+def dimstr(d):
+    return '%d' % d if isinstance(d, int) else '%dx%d' % tuple(d)
+
+
+RECT = [(1, 2), (1, 3), (2, 3)]        # ldim < pdim: curves in the plane / in space, surfaces in space
+
+
+def params_for(name, d, rng, kind, how=None):
+    """numeric parameters in a range where the mapping is regular on the sample box; `how` (a dict) receives the
+    constructor used for every parameter and the exact rational values (for the replay)"""
     from sympy import Matrix, Rational
     den = 1 if kind == 'int' else 16
     r = lambda lo, hi: rat(rng, lo, hi, den)
+    ld, pd = ldpd(d)
     p = {}
     if name == 'AffineMapping':
         while True:
-            A = Matrix(d, d, lambda i, j: rat(rng, -2, 2, 1 if kind == 'int' else 8))
-            if abs(A.det()) >= Rational(1, 2):
+            A = Matrix(pd, ld, lambda i, j: rat(rng, -2, 2, 1 if kind == 'int' else 8))
+            if abs((A.T * A).det()) >= Rational(1, 4):
                 break
-        for i in range(d):
+        for i in range(pd):
             p['c%d' % (i + 1)] = r(-2, 2)
-            for j in range(d):
+            for j in range(ld):
                 p['a%d%d' % (i + 1, j + 1)] = A[i, j]
     elif name == 'PolarMapping':
         p = {'c1': r(-1, 1), 'c2': r(-1, 1)}
@@ -96,7 +150,13 @@ def params_for(name, d, rng, kind):
         p = {'R0': r(2, 4)}
     elif name == 'TorusSurfaceMapping':
         p = {'R0': r(2, 4), 'a': rat(rng, 0.5, 1, 16)}
-    return {k: as_kind(v, kind) for k, v in p.items()}
+    out = {}
+    for k, v in p.items():
+        h = []
+        out[k] = as_kind(v, kind, rng, h)
+        if how is not None:
+            how[k] = [h[0], str(v)]
+    return out
 
 
 BOX = [(0.15, 0.85), (0.3, 2.8), (0.25, 5.0)]
@@ -113,21 +173,90 @@ def point(rng, ld):
     return pt
 
 
-def regular_point(rng, ld, Jref, coords):
-    """a point of the box, sometimes with a special angle, at which the mapping is regular"""
+def pivot_point(rng, ld, Jref, coords):
+    """a point of the box at which a leading principal minor of the Jacobian (a pivot of Gaussian elimination: J[0,0],
+    or J[0:2,0:2] in 3D) vanishes to double precision although nothing says the mapping is singular there, e.g. the curve
+    cos(x2) = 2 D x1 / (1 - k) of TargetMapping; None if no such point is found.  A stored inverse that divides by
+    the pivots is 0/0 there in floating point (seeded changes C16-5, C16-8).  The coordinates are the exact
+    rationals of double-precision numbers, so the callable mapping is evaluated at exactly this point."""
+    import math
     import sympy
-    pt = point(rng, ld)
-    if any(not sympy.sympify(p_).is_Rational for p_ in pt):
+    if ld < 2 or Jref.shape[0] != Jref.shape[1]:
+        return None
+    r = rng.randint(1, ld - 1)
+    minor = Jref[0, 0] if r == 1 else Jref[:r, :r].det()
+    pt = [rat(rng, BOX[k][0], BOX[k][1], 64) for k in range(ld)]
+    for k in rng.sample(range(ld), ld):
+        f = sympy.sympify(minor).xreplace({c: v for i, (c, v) in enumerate(zip(coords, pt)) if i != k})
+        if f.free_symbols != {coords[k]}:
+            continue
         try:
-            Jr = Jref.xreplace(dict(zip(coords, pt)))
+            fn = sympy.lambdify(coords[k], f, 'math')
+            lo, hi = BOX[k]
+            n = 24
+            ts = [lo + (hi - lo) * i / n for i in range(n + 1)]
+            vs = [fn(t) for t in ts]
+            br = [(ts[i], ts[i + 1]) for i in range(n) if vs[i] * vs[i + 1] < 0]
+            if not br:
+                continue
+            a, b = rng.choice(br)
+            fa = fn(a)
+            for _ in range(80):
+                c = 0.5 * (a + b)
+                fc = fn(c)
+                if fc == 0 or c in (a, b):
+                    a = b = c
+                    break
+                if (fa < 0) == (fc < 0):
+                    a, fa = c, fc
+                else:
+                    b = c
+            t = 0.5 * (a + b)
+        except (TypeError, ValueError, ZeroDivisionError, OverflowError):
+            continue
+        if not (lo < t < hi) or not math.isfinite(t):
+            continue
+        pt[k] = sympy.Rational(t)
+        return pt
+    return None
+
+
+def regular_point(rng, ld, Jref, coords, p_pivot=0.3):
+    """a point of the box, sometimes with a special angle or on the set where a pivot of the Jacobian vanishes, at
+    which the mapping is regular"""
+    import sympy
+    pt, special = None, False
+    if ld > 1 and rng.random() < p_pivot:
+        pt = pivot_point(rng, ld, Jref, coords)
+        special = pt is not None
+    if pt is None:
+        pt = point(rng, ld) if p_pivot < 1 else special_angle_point(rng, ld)
+        special = any(not sympy.sympify(p_).is_Rational for p_ in pt)
+    if special:
+        try:
+            Jr = exact(Jref).xreplace(dict(zip(coords, pt)))
             G = (Jr.T * Jr).det()
             ok = bool(abs(sympy.N(G, 30)) > sympy.Rational(1, 10 ** 4))
         except Exception:
             ok = False
         if not ok:
+            pt = point(rng, ld)
             while any(not sympy.sympify(p_).is_Rational for p_ in pt):
                 pt = point(rng, ld)
     return pt
+
+
+def special_angle_point(rng, ld):
+    """a point of the box with a special angle (whenever there is an angle coordinate)"""
+    pt = point(rng, ld)
+    while ld > 1 and all(sympy_rational(p_) for p_ in pt):
+        pt = point(rng, ld)
+    return pt
+
+
+def sympy_rational(v):
+    import sympy
+    return bool(sympy.sympify(v).is_Rational)
 
 
 def exact(e):
@@ -147,11 +276,17 @@ def ev_matrix(M, subs, digits=50):
     return sympy.Matrix(M.shape[0], M.shape[1], [ev(x, subs, digits) for x in M])
 
 
+USER_DIMS = [1, 2, 2, 3, (1, 2), (1, 3), (2, 3)]
+
+
 def user_class(rng, serial, d):
-    """a user subclass of Mapping defined like the catalogue ones: a perturbation of the identity"""
+    """a user subclass of Mapping defined like the catalogue ones: a perturbation of the identity (d an int), or of the
+    embedding (x1, .., x_ldim, 0, ..) of a curve / surface (d = (ldim, pdim), ldim < pdim: the extra physical
+    coordinates are sums of the same terms, so the Jacobian has full column rank)"""
     from sympde.topology.mapping import Mapping
-    xs = ['x1', 'x2', 'x3'][:d]
-    names = ['x', 'y', 'z'][:d]
+    ld, pd = ldpd(d)
+    xs = ['x1', 'x2', 'x3'][:ld]
+    names = ['x', 'y', 'z'][:pd]
     par = ['p%d' % k for k in range(rng.randint(0, 2))]
 
     def term():
@@ -166,10 +301,18 @@ def user_class(rng, serial, d):
         if k < 0.8:
             return '%s*sin(%s)' % (c, w)
         return '%s*cos(%s)*%s' % (c, w, v)
-    exprs = {n: '%s + %s%s' % (x, term(), (' + ' + term()) if rng.random() < 0.5 else '') for n, x in zip(names, xs)}
-    cls = type('UserMapping%d' % serial, (Mapping,), {'_expressions': exprs, '_ldim': d, '_pdim': d})
+    lead = xs + [None] * (pd - ld)
+    exprs = {n: '%s%s%s' % ((x + ' + ') if x else '', term(), (' + ' + term()) if rng.random() < 0.5 else '') for n, x in zip(names, lead)}
+    cls = type('UserMapping%d' % serial, (Mapping,), {'_expressions': exprs, '_ldim': ld, '_pdim': pd})
     vals = {q: rat(rng, -0.15, 0.15, 64) for q in par}
     return cls, vals, exprs
+
+
+def helix_class():
+    """fixed corpus: a curve in space defined like the catalogue mappings (ldim = 1, pdim = 3)"""
+    from sympde.topology.mapping import Mapping
+    exprs = {'x': 'R*cos(x1)', 'y': 'R*sin(x1)', 'z': 'h*x1'}
+    return type('HelixMapping', (Mapping,), {'_expressions': exprs, '_ldim': 1, '_pdim': 3}), exprs
 
 
 # --------------------------------------------------------------------------- shapes
@@ -232,11 +375,19 @@ _CACHE = {}
 
 
 def build(name, cls, d, params):
-    key = (name, d, tuple(sorted((k, repr(v)) for k, v in params.items())))
+    key = (name, d, tuple(sorted((k, type(v).__name__ + ':' + repr(v)) for k, v in params.items())))
     if key not in _CACHE:
-        _CACHE[key] = cls('M%s%d' % (name[:3], len(_CACHE)), dim=d, **params) if cls._ldim is None else \
-            cls('M%s%d' % (name[:3], len(_CACHE)), **params)
+        nm = 'M%s%d' % (name[:3], len(_CACHE))
+        if not isinstance(d, int):
+            _CACHE[key] = cls(nm, ldim=d[0], pdim=d[1], **params)
+        else:
+            _CACHE[key] = cls(nm, dim=d, **params) if cls._ldim is None else cls(nm, **params)
     return _CACHE[key]
+
+
+def expected_comp(label, ld, pd):
+    """component shape of a quantity of a mapping with ld logical and pd physical coordinates"""
+    return {'jacobian': (pd, ld), 'metric': (ld, ld), 'metric_det': (), 'jacobian_inv': (ld, ld)}.get(label, ())
 
 
 def quantities_of(F, m):
@@ -252,16 +403,22 @@ def quantities_of(F, m):
 
 
 def cases_for_tier(ctx):
-    """[(class name, class, dim, kind)] of this run"""
-    kinds = ['int', 'rat', 'float']
+    """[(class name, class, dim, kind)] of this run; dim is an int or, for the classes without a fixed dimension,
+    also a pair (ldim, pdim) with ldim < pdim (curve / surface)"""
+    kinds = KINDS
     out = []
     for name, cls, dims in T.catalogue():
         for d in dims:
-            ks = kinds + ['float', 'rat'] if ctx.thorough else [ctx.rng.choice(kinds)]
+            ks = kinds if ctx.thorough else [ctx.rng.choice(kinds)]
             if not ctx.thorough and name in ('PolarMapping', 'AffineMapping') and d == 2:
-                ks = ['int', 'float']
+                ks = ['int', ctx.rng.choice(['float', 'sfloat'])]
             for k in ks:
                 out.append((name, cls, d, k))
+        if cls._ldim is None:
+            rect = RECT if (ctx.thorough or name == 'AffineMapping') else [ctx.rng.choice(RECT)]
+            for d in rect:
+                for k in (kinds if ctx.thorough and name == 'AffineMapping' else [ctx.rng.choice(kinds)]):
+                    out.append((name, cls, d, k))
     return out
 
 
@@ -340,15 +497,16 @@ def correspondence(ctx):
     nuser = 24 if ctx.thorough else 6
     maps = []
     for k in range(nuser):
-        d = rng.choice([1, 2, 2, 3])
+        d = rng.choice(USER_DIMS)
         cls, vals, exprs_u = user_class(rng, k, d)
         try:
             with time_limit(60):
                 maps.append(('user%d:%s' % (k, exprs_u), cls('U%d' % k, **(vals if rng.random() < 0.5 else {}))))
         except Timeout:
             c.count('timeout:user')
-    for (name, d, _), m in list(_CACHE.items())[:6]:
-        maps.append(('%s_%d' % (name, d), m))
+    cached = list(_CACHE.items())
+    for (name, d, _), m in cached[:6] + [it for it in cached[6:] if not isinstance(it[0][1], int)][:2]:
+        maps.append(('%s_%s' % (name, dimstr(d)), m))
     for tag, m in maps:
         J = m.jacobian_expr
         for i in range(m.pdim):
@@ -357,7 +515,11 @@ def correspondence(ctx):
                 if T.has_other(s):
                     c.count('sdiff:outside-fragment')
                     continue
-                add('C05 sdiff x%d %s' % (j + 1, dumps(s)), ('sdiff', J[i, j], '%s d x%d / d x%d' % (tag, i, j + 1), ser))
+                try:
+                    Jij = J[i, j]
+                except Exception as e:         # the stored Jacobian has no entry (i, j): reported as a disagreement
+                    Jij = sympy.Symbol('no_entry_%d_%d_of_stored_Jacobian_of_shape_%s' % (i, j, 'x'.join(str(v) for v in getattr(J, 'shape', ()))))
+                add('C05 sdiff x%d %s' % (j + 1, dumps(s)), ('sdiff', Jij, '%s d x%d / d x%d' % (tag, i, j + 1), ser))
     outs = ctx.driver.run(lines)
     for line, pl, out in zip(lines, payload, outs):
         c.evaluations += 1
@@ -397,14 +559,34 @@ def close(got, expv, scale):
     return abs(float(got) - float(expv)) <= TOL * (abs(float(expv)) + scale)
 
 
-def check_symbolic(o, tag, m, rng, detail):
+def shape_of(M):
+    sh = getattr(M, 'shape', None)
+    return tuple(int(v) for v in sh) if sh is not None else None
+
+
+def check_symbolic(o, tag, m, rng, detail, p_pivot=0.3):
     """stored J, Jinv, G, detG against independent differentiation / linear algebra, at 50 digits"""
     import sympy
     from sympy import Matrix, Rational
     coords = list(m.logical_coordinates) if m.ldim > 1 else [m.logical_coordinates]
+    if len(m.expressions) != m.pdim or len(coords) != m.ldim:
+        o.fail('dims:' + tag, 'the mapping has %d coordinate expressions and %d logical coordinates but pdim = %s, ldim = %s'
+               % (len(m.expressions), len(coords), m.pdim, m.ldim), **detail)
+        return
     X = Matrix([[e] for e in m.expressions])
     J = m.jacobian_expr
     Jref = X.jacobian(coords)                # sympy's own differentiation of the stored expressions
+    for label, Q, want in (('jac', J, (m.pdim, m.ldim)), ('metric', m.metric_expr, (m.ldim, m.ldim))):
+        if shape_of(Q) != want:
+            o.fail('%s-shape:%s' % (label, tag), 'the stored %s has shape %s, expected (%d, %d) for %d logical and %d physical coordinates'
+                   % ({'jac': 'Jacobian', 'metric': 'metric'}[label], shape_of(Q), want[0], want[1], m.ldim, m.pdim), stored=str(Q), **detail)
+            return
+    if m.jacobian_inv_expr is not None and shape_of(m.jacobian_inv_expr) != (m.ldim, m.pdim):
+        o.fail('jac_inv-shape:' + tag, 'the stored inverse Jacobian has shape %s, expected (%d, %d)' % (shape_of(m.jacobian_inv_expr), m.ldim, m.pdim), **detail)
+        return
+    if shape_of(m.metric_det_expr) is not None:
+        o.fail('metric_det-shape:' + tag, 'the stored metric determinant is not a scalar but has shape %s' % (shape_of(m.metric_det_expr),), **detail)
+        return
     consts = {a: rat(rng, 0.3, 0.9, 32) for a in set().union(*[sympy.sympify(e).free_symbols for e in m.expressions]) - set(coords)}
     # with Float parameters sympy has already rounded products and sums while building the stored quantities:
     # the symbolic identities then hold to floating-point accuracy only
@@ -412,11 +594,9 @@ def check_symbolic(o, tag, m, rng, detail):
     has_float = any(sympy.sympify(e).atoms(sympy.Float) for e in list(m.expressions) + stored_all)
     t_exact = sympy.Float('1e-12') if has_float else sympy.Float('1e-38')
     o.count('symbolic:' + ('float' if has_float else 'exact'))
-    if tuple(J.shape) != (m.pdim, m.ldim):
-        o.fail('jac-shape:' + tag, 'stored Jacobian has shape %s, expected (%d, %d)' % (J.shape, m.pdim, m.ldim), **detail)
-        return
     for _ in range(2):
-        pt = regular_point(rng, m.ldim, Jref.xreplace(consts), coords)
+        pt = regular_point(rng, m.ldim, Jref.xreplace(consts), coords, p_pivot)
+        o.count('symbolic-point:' + ('rational' if all(sympy_rational(p_) and sympy.Rational(p_).q <= 64 for p_ in pt) else 'special'))
         subs = dict(zip(coords, pt))
         subs.update(consts)
         Jv, Jr = ev_matrix(J, subs), ev_matrix(Jref, subs)
@@ -450,7 +630,7 @@ def check_symbolic(o, tag, m, rng, detail):
             o.fail('jac_inv-missing:' + tag, 'a square mapping stores no inverse Jacobian', **detail)
 
 
-def check_callable(o, tag, m, rng, detail, big):
+def check_callable(o, tag, m, rng, detail, big, p_pivot=0.3):
     """values and shapes returned by the callable mapping against the exact evaluation of the stored quantities"""
     import numpy as np
     import sympy
@@ -466,14 +646,14 @@ def check_callable(o, tag, m, rng, detail, big):
     qs = quantities_of(F, m)
     # points
     for _ in range(3 if big else 2):
-        pt = regular_point(rng, ld, Jref, coords)
+        pt = regular_point(rng, ld, Jref, coords, p_pivot)
         subs = dict(zip(coords, pt))
         Jr = ev_matrix(Jref, subs)
         detJ = abs(float((Jr.T * Jr).det())) ** 0.5
         if not (1e-3 <= detJ <= 1e4):
             o.count('point:ill-conditioned')
             continue
-        o.count('point')
+        o.count('point' + ('' if all(sympy_rational(p_) and sympy.Rational(p_).q <= 64 for p_ in pt) else ':special'))
         fl = [float(p) for p in pt]
         refs = {'jacobian': Jr, 'metric': Jr.T * Jr, 'metric_det': (Jr.T * Jr).det()}
         if m.jacobian_inv_expr is not None:
@@ -497,9 +677,10 @@ def check_callable(o, tag, m, rng, detail, big):
                 # number (sympy's N on 0·∞ patterns): nothing can be concluded from this point
                 o.count('special-point-not-evaluable:' + label)
                 continue
-            comp = tuple(expr.shape) if hasattr(expr, 'shape') else ()
-            if shp(got) != comp:
-                o.fail('shape:%s:%s' % (label, tag), '%s at a scalar point has shape %s, expected the component shape %s' % (label, shp(got), comp),
+            comp = expected_comp(label, m.ldim, m.pdim)
+            if shp(got) != comp or (shape_of(expr) or ()) != comp:
+                o.fail('shape:%s:%s' % (label, tag), '%s at a scalar point has shape %s (stored expression: %s), expected the component shape %s of a '
+                       'mapping with %d logical and %d physical coordinates' % (label, shp(got), shape_of(expr) or (), comp, m.ldim, m.pdim),
                        point=fl, **detail)
                 return
             g = np.asarray(got, dtype=float).reshape(-1)
@@ -520,7 +701,7 @@ def check_callable(o, tag, m, rng, detail, big):
         for label, expr, f in qs:
             if expr is None:
                 continue
-            comp = tuple(expr.shape) if hasattr(expr, 'shape') else ()
+            comp = expected_comp(label, m.ldim, m.pdim)
             try:
                 got = f(*args)
             except ValueError:
@@ -560,6 +741,29 @@ def check_callable(o, tag, m, rng, detail, big):
                         return
 
 
+# fixed corpus (stable keys): (tag, class name, dim, {parameter: (how, value)}, probability of a pivot / special-angle point)
+FIXED = [
+    # witness of the defect repaired by fix d054f01 (metric determinant with float parameters)
+    ('fixed:CzarnyMapping:float', 'CzarnyMapping', 2, {'c2': ('float', '1/16'), 'b': ('float', '2'), 'eps': ('float', '15/32')}, 0.3),
+    # floating-point parameters that are not python floats, at points where a pivot of J vanishes (fix 27300fc, seeded C16-8)
+    ('fixed:CzarnyMapping:sfloat', 'CzarnyMapping', 2, {'c2': ('Float', '1/16'), 'b': ('sympify', '3/2'), 'eps': ('evalf', '5/16')}, 1.0),
+    ('fixed:TargetMapping:sfloat', 'TargetMapping', 2, {'c1': ('Float', '1/8'), 'c2': ('Decimal', '1/4'), 'k': ('sympify', '5/16'), 'D': ('evalf', '3/16')}, 1.0),
+    ('fixed:PolarMapping:mixed', 'PolarMapping', 2, {'c1': ('rat', '1/2'), 'c2': ('int', '0'), 'rmin': ('mpf', '1/2'), 'rmax': ('Float', '7/4')}, 1.0),
+    # curves and a surface: ldim < pdim through the classes without a fixed dimension (seeded C16-7)
+    ('fixed:AffineMapping:1x2:rat', 'AffineMapping', (1, 2), {'c1': ('int', '1'), 'c2': ('int', '-2'), 'a11': ('int', '2'), 'a21': ('rat', '3/2')}, 0.3),
+    ('fixed:AffineMapping:1x3:float', 'AffineMapping', (1, 3), {'c1': ('float', '1/2'), 'c2': ('float', '1/4'), 'c3': ('float', '-1'), 'a11': ('float', '2'),
+                                                                  'a21': ('float', '-3/4'), 'a31': ('float', '1/2')}, 0.3),
+    ('fixed:AffineMapping:2x3:sfloat', 'AffineMapping', (2, 3), {'c1': ('Float', '1/2'), 'c2': ('rat', '1/4'), 'c3': ('int', '0'), 'a11': ('Float', '2'), 'a12': ('sympify', '1/2'),
+                                                                   'a21': ('evalf', '-3/4'), 'a22': ('int', '1'), 'a31': ('rat', '1/2'), 'a32': ('Float', '-5/4')}, 0.3),
+    ('fixed:IdentityMapping:1x2', 'IdentityMapping', (1, 2), {}, 0.3),
+]
+
+
+def detail_of(name, d, params, how, kind):
+    return {'mapping': name, 'dim': list(d) if not isinstance(d, int) else d, 'kind': kind,
+            'params': {k: repr(v) for k, v in params.items()}, 'how': dict(how)}
+
+
 def oracle(ctx, factor, seeds):
     import sympy
     o = Oracle()
@@ -567,26 +771,45 @@ def oracle(ctx, factor, seeds):
     todo = cases_for_tier(ctx)
     if factor > 1:
         todo = todo * 2
-    # witness of the defect repaired by a `fix:` commit (kept so that a regression is reported)
     cat = {n: c for n, c, _ in T.catalogue()}
-    if 'CzarnyMapping' in cat:
+    for tag, name, d, spec, pp in FIXED:
+        if name not in cat:
+            continue
         o.evaluations += 1
-        fp = {'c2': 0.0625, 'b': 2.0, 'eps': 0.46875}
-        det0 = {'mapping': 'CzarnyMapping', 'dim': 2, 'params': {k: repr(v) for k, v in fp.items()}}
+        o.count('fixed')
+        fp = {k: make_param(v, h) for k, (h, v) in spec.items()}
+        det0 = detail_of(name, d, fp, {k: [h, v] for k, (h, v) in spec.items()}, 'fixed')
+        det0['p_pivot'] = pp
         try:
             with time_limit(240):
-                m0 = build('CzarnyMapping', cat['CzarnyMapping'], 2, fp)
-                check_symbolic(o, 'fixed:CzarnyMapping:float', m0, rng, det0)
-                check_callable(o, 'fixed:CzarnyMapping:float', m0, rng, det0, False)
+                m0 = build(name, cat[name], d, fp)
+                check_symbolic(o, tag, m0, rng, det0, pp)
+                check_callable(o, tag, m0, rng, det0, False, pp)
+        except Timeout:
+            o.count('timeout')
+    # fixed user curve (a helix: ldim = 1, pdim = 3), numeric and symbolic parameters
+    hcls, hexprs = helix_class()
+    for tag, vals in (('fixed:user-helix:1x3:rat', {'R': sympy.Integer(2), 'h': sympy.Rational(1, 2)}), ('fixed:user-helix:1x3:symbolic', {})):
+        o.evaluations += 1
+        o.count('fixed')
+        detail = {'mapping': 'user subclass', 'ldim': 1, 'pdim': 3, 'expressions': hexprs, 'params': {a: str(b) for a, b in vals.items()}}
+        try:
+            with time_limit(120):
+                m = hcls('H%d' % len(vals), **vals)
+                check_symbolic(o, tag, m, rng, detail)
+                if vals:
+                    check_callable(o, tag, m, rng, detail, False)
         except Timeout:
             o.count('timeout')
     for name, cls, d, kind in todo:
-        params = params_for(name, d, rng, kind)
-        tag = '%s:%d:%s' % (name, d, kind)
-        detail = {'mapping': name, 'dim': d, 'params': {k: repr(v) for k, v in params.items()}}
+        how = {}
+        params = params_for(name, d, rng, kind, how)
+        tag = '%s:%s:%s' % (name, dimstr(d), kind)
+        detail = detail_of(name, d, params, how, kind)
         o.evaluations += 1
         o.count('class:' + name)
         o.count('kind:' + kind)
+        o.count('dims:' + ('square' if isinstance(d, int) else 'ldim<pdim'))
         try:
             with time_limit(240):
                 m = build(name, cls, d, params)
@@ -596,25 +819,28 @@ def oracle(ctx, factor, seeds):
                 check_callable(o, tag, m, rng, detail, ctx.thorough)
         except Timeout:
             o.count('timeout')
-    # symbolic parameters (the objects the generated theorems are about)
+    # symbolic parameters (the objects the generated theorems are about; the ldim < pdim variants of the classes without a
+    # fixed dimension are not among the generated theorem blocks: covered here only)
     for name, cls, dims in T.catalogue():
-        for d in dims:
+        for d in list(dims) + (RECT if cls._ldim is None else []):
             if not ctx.thorough and name == 'CzarnyMapping' and factor == 1 and ctx.seed % 2:
                 continue
             o.evaluations += 1
             try:
                 with time_limit(240):
                     m = build(name, cls, d, {})
-                    check_symbolic(o, '%s:%d:symbolic' % (name, d), m, rng, {'mapping': name, 'dim': d, 'params': 'symbolic'})
+                    check_symbolic(o, '%s:%s:symbolic' % (name, dimstr(d)), m, rng,
+                                   {'mapping': name, 'dim': list(d) if not isinstance(d, int) else d, 'params': 'symbolic'})
             except Timeout:
                 o.count('timeout')
     # user subclasses defined the same way
     for k in range((10 if ctx.thorough else 3) * factor):
-        d = rng.choice([1, 2, 2, 3])
+        d = rng.choice(USER_DIMS)
         cls, vals, exprs = user_class(rng, 1000 + k, d)
         o.evaluations += 1
         o.count('class:user')
-        detail = {'mapping': 'user subclass', 'expressions': exprs, 'params': {a: str(b) for a, b in vals.items()}}
+        o.count('dims:' + ('square' if isinstance(d, int) else 'ldim<pdim'))
+        detail = {'mapping': 'user subclass', 'ldim': ldpd(d)[0], 'pdim': ldpd(d)[1], 'expressions': exprs, 'params': {a: str(b) for a, b in vals.items()}}
         try:
             with time_limit(120):
                 m = cls('V%d' % k, **vals)
@@ -632,16 +858,37 @@ def replay(ctx, path):
     det = d.get('detail') or {}
     name = det.get('mapping')
     cat = {n: (c, dims) for n, c, dims in T.catalogue()}
+    m = None
     if name in cat and isinstance(det.get('params'), dict):
         import sympy
-        params = {k: sympy.sympify(v) if not v.startswith('0.') and '.' not in v else float(v) for k, v in det['params'].items()}
+        if isinstance(det.get('how'), dict):
+            params = {k: make_param(v, h) for k, (h, v) in det['how'].items()}
+        else:       # replay files written before the parameter constructors were recorded
+            params = {k: sympy.sympify(v) if not v.startswith('0.') and '.' not in v else float(v) for k, v in det['params'].items()}
+        dim = det['dim'] if isinstance(det['dim'], int) else tuple(det['dim'])
+        m = build(name, cat[name][0], dim, params)
+    elif name == 'user subclass' and isinstance(det.get('expressions'), dict):
+        import sympy
+        from sympde.topology.mapping import Mapping
+        ex = det['expressions']
+        ld = int(det.get('ldim', len(ex)))
+        cls = type('ReplayMapping', (Mapping,), {'_expressions': ex, '_ldim': ld, '_pdim': int(det.get('pdim', len(ex)))})
+        m = cls('R', **{k: sympy.sympify(v) for k, v in (det.get('params') or {}).items()})
+    if m is not None:
         o = Oracle()
-        m = build(name, cat[name][0], det['dim'], params)
-        check_symbolic(o, 'replay', m, ctx.rng, det)
-        check_callable(o, 'replay', m, ctx.rng, det, True)
+        tag = 'replay'
+        det = {k: v for k, v in det.items() if k in ('mapping', 'dim', 'kind', 'params', 'how', 'p_pivot', 'expressions', 'ldim', 'pdim')}
+        for pp in (float(det.get('p_pivot', 0.3)), 1.0, 0.3, 0.0):
+            check_symbolic(o, tag, m, ctx.rng, det, pp)
+            if det.get('params') != 'symbolic' and not getattr(m, '_constants', ()):
+                check_callable(o, tag, m, ctx.rng, det, True, pp)
+            if o.failures:
+                break
         for f in o.failures:
             print('REPRODUCED %s: %s' % (f['key'], f['what']))
         if not o.failures:
             print('not reproduced on the current tree')
-        return 1 if o.failures else 0
+            return 0
+        print('VIOLATION property=%s replay=%s' % (PID, path))
+        return 1
     return 0
